@@ -174,6 +174,7 @@ MergeEntity(s, e) ==
            LET ks == AlertTripKeys(e)
                s1 == [s EXCEPT !.alerts = Append(s.alerts, AlertOf(e))]
            IN FoldL(LAMBDA acc, k : [acc EXCEPT !.tb = MergeTrip(acc.tb, BareTrip(k))], s1, ks)
+      [] e.k = "none" -> s        \* a wire entity without a trip update, vehicle or alert says nothing
 
 (* resolution: sort, link *)
 Resolve(s, ts) ==
